@@ -534,16 +534,122 @@ def r12_walk(w, invariants, decreases="__it.rest().len()", ensures=("__it.rest()
         raise LostAnchor("for .. in WalkDir::new(..) not found exactly once in %s" % w.qual())
     s, e, ob = cands[0]
     hdr = w.body[e:ob]
-    m = re.match(r"\s+(\w+)\s+in\s+WalkDir::new\(\s*(.+?)\s*\)\s*\.into_iter\(\)\s*\.filter_map\(\s*\|(\w+)\|\s*(\w+)\.ok\(\)\s*\)\s*\.filter\(\s*\|(\w+)\|\s*(.+?)\s*\)\s*$", hdr, re.S)
-    if not m or m.group(3) != m.group(4):
+    m = re.match(r"\s+(\w+)\s+in\s+WalkDir::new\(\s*(.+?)\s*\)\s*((?:\.follow_links\(\s*\w+\s*\)\s*)?)\.into_iter\(\)\s*\.filter_map\(\s*\|(\w+)\|\s*(\w+)\.ok\(\)\s*\)\s*\.filter\(\s*\|(\w+)\|\s*(.+?)\s*\)\s*$", hdr, re.S)
+    if not m or m.group(4) != m.group(5):
         raise LostAnchor("WalkDir iterator chain shape changed in %s: %r" % (w.qual(), hdr.strip()))
-    var, dirx, _, _, p, cond = m.groups()
+    var, dirx, builder, _, _, p, cond = m.groups()
+    follow = "false"
+    if builder.strip():
+        follow = re.search(r"\(\s*(\w+)\s*\)", builder).group(1)
     cond2 = re.sub(r"\b%s\b" % re.escape(p), var, cond)
     cb = lexer.match_close(w.body, ob)
     inv = inv_text(invariants, decreases, list(ensures))
-    w.replace(s, ob, "{ let mut __it = walk_ok_entries(%s, Tracked(w)); loop%s" % (dirx, inv), "R12",
+    w.replace(s, ob, "{ let mut __it = walk_ok_entries(%s, %s, Tracked(w)); loop%s" % (dirx, follow, inv), "R12",
               "for over WalkDir::new(%s)..filter_map(ok).filter(|%s| %s) -> loop over the iterator shim" % (dirx, p, cond))
     w.insert_at(ob + 1, " let %s = match __it.next() { Some(v) => v, None => break }; if !(%s) { continue; }" % (var, cond2), "R12",
                 "element binding; filter condition from the real closure")
     w.insert_at(cb + 1, " }", "R12", "close iterator scope")
     return var, dirx, cond2
+
+
+# ----------------------------------------------------------------------------
+# R12 (pest form): `for x in E { B }` with E a pest `Pairs`  ->  rustc's own desugaring
+#   { let mut IT = E; loop inv.. { let x = match IT.next() { Some(v) => v, None => break }; B } }
+# ----------------------------------------------------------------------------
+
+def r12_pairs(w, kw_start, itname, invariants, ensures=None, decreases=None):
+    """kw_start: offset of the `for` keyword (use w.loops()); the loop must be `for IDENT in EXPR {`."""
+    ls = [l for l in w.loops() if l[1] == kw_start]
+    if not ls or ls[0][0] != "for":
+        raise LostAnchor("r12_pairs: no for loop at %d in %s" % (kw_start, w.qual()))
+    kw, s, e = ls[0]
+    ob = w.loop_open_brace(e)
+    m = re.match(r"\s+(\w+)\s+in\s+(.+?)\s*$", w.body[e:ob], re.S)
+    if not m:
+        raise LostAnchor("for header shape in %s" % w.qual())
+    var, expr = m.group(1), m.group(2)
+    cb = lexer.match_close(w.body, ob)
+    inv = inv_text(invariants, decreases or "%s.rest().len()" % itname, list(ensures or ["%s.rest().len() == 0" % itname]))
+    w.replace(s, ob, "{ let mut %s = %s; loop%s" % (itname, expr, inv), "R12", "for %s in %s (pest Pairs) -> loop over next()" % (var, expr))
+    w.insert_at(ob + 1, " let %s = match %s.next() { Some(v) => v, None => break };" % (var, itname), "R12", "element binding")
+    w.insert_at(cb + 1, " }", "R12", "close iterator scope")
+    return var, expr
+
+
+def for_loops_over(w, expr_re):
+    """offsets of `for` keywords whose header matches expr_re (on masked text)"""
+    out = []
+    for kw, s, e in w.loops():
+        if kw != "for":
+            continue
+        ob = w.loop_open_brace(e)
+        if re.search(expr_re, w.mbody[e:ob]):
+            out.append(s)
+    return out
+
+
+def r_lazy_static(w):
+    """`lazy_static! { static ref NAME: Regex = Regex::new(r"PAT").unwrap(); }` inside a fn body is removed; uses of
+    `&NAME` become `NAME_shim()`.  Returns [(NAME, pattern_literal_text)] so the unit can emit the shim with the real pattern."""
+    out = []
+    for h in re.finditer(r"lazy_static!\s*\{", w.mbody):
+        ob = h.end() - 1
+        cb = lexer.match_close(w.body, ob)
+        inner = w.body[ob + 1:cb]
+        m = re.match(r'\s*static\s+ref\s+(\w+)\s*:\s*(\w+)\s*=\s*(.+?);\s*$', inner, re.S)
+        if not m:
+            raise LostAnchor("lazy_static shape in %s" % w.qual())
+        name, typ, init = m.group(1), m.group(2), m.group(3).strip()
+        out.append((name, typ, init))
+        w.replace(h.start(), cb + 1, "", "R9", "lazy_static %s: %s hoisted to a shim accessor" % (name, typ))
+    for name, typ, init in out:
+        for h in re.finditer(r"&\s*%s\b" % re.escape(name), w.mbody):
+            w.replace(h.start(), h.end(), "%s_shim()" % name, "R9", "lazy static %s read through its shim accessor" % name)
+        for h in re.finditer(r"(?<![&\w])%s\s*\.(\w+)\(" % re.escape(name), w.mbody):
+            w.replace(h.start(), h.start() + len(name), "%s_shim()" % name, "R9", "lazy static %s read through its shim accessor" % name)
+    return out
+
+
+def r_last_mut_set(w):
+    """`match V.last_mut() { None => continue, Some((_, X)) => { *X = E; }, }` -> if V.len() == 0 { continue; } else { set second component of the last element }"""
+    n = 0
+    for h in re.finditer(r"match\s+(\w+)\.last_mut\(\)\s*\{", w.mbody):
+        v = h.group(1)
+        ob = h.end() - 1
+        cb = lexer.match_close(w.body, ob)
+        inner = w.body[ob + 1:cb]
+        m = re.match(r"\s*None\s*=>\s*continue\s*,\s*Some\(\(\s*_\s*,\s*(\w+)\s*\)\)\s*=>\s*\{\s*\*\1\s*=\s*(.+?);\s*\}\s*,?\s*$", inner, re.S)
+        if not m:
+            raise LostAnchor("last_mut match shape in %s" % w.qual())
+        expr = m.group(2)
+        w.replace(h.start(), cb + 1,
+                  "if %s.len() == 0 { continue; } else { let __n = %s.len() - 1; let __k = %s[__n].0; %s.set(__n, (__k, %s)); }" % (v, v, v, v, expr),
+                  "R14", "match %s.last_mut() { None => continue, Some((_, x)) => *x = E } -> indexed update of the last element (Copy tuple)" % v)
+        n += 1
+    return n
+
+
+def r_for_tuple_vec(w, kw_start, invariants, idx="__k"):
+    """`for (a, b) in V { B }` over a Vec of Copy tuples -> index while loop (`continue`/`break` keep their meaning)."""
+    ls = [l for l in w.loops() if l[1] == kw_start]
+    kw, s, e = ls[0]
+    ob = w.loop_open_brace(e)
+    m = re.match(r"\s+\(\s*(\w+)\s*,\s*(\w+)\s*\)\s+in\s+(\w+)\s*$", w.body[e:ob], re.S)
+    if not m:
+        raise LostAnchor("for (a, b) in V shape in %s" % w.qual())
+    a, b, v = m.groups()
+    cb = lexer.match_close(w.body, ob)
+    inv = inv_text(invariants, "%s.len() - %s" % (v, idx))
+    w.replace(s, ob, "{ let mut %s: usize = 0; while %s < %s.len()%s" % (idx, idx, v, inv), "R4", "for (%s, %s) in %s -> index while loop" % (a, b, v))
+    w.insert_at(ob + 1, " let (%s, %s) = %s[%s]; %s += 1;" % (a, b, v, idx, idx), "R4", "element binding + increment")
+    w.insert_at(cb + 1, " }", "R4", "close scope of loop index")
+    return a, b, v
+
+
+def r_parse_u32(w):
+    n = 0
+    for h in re.finditer(r"((?:\w+\s*\.\s*)*\w+(?:\(\))?(?:\[[^\]]*\])?)\s*\.parse::<u32>\(\)", w.mbody):
+        recv = re.sub(r"\s+", "", h.group(1))
+        w.replace(h.start(), h.end(), "str_parse_u32(%s)" % recv, "R9", "str::parse::<u32> via shim (contract: canonical u32 parse)")
+        n += 1
+    return n
